@@ -14,6 +14,7 @@ FPU == {
   M("b", <<H(1,0,1)>>), M("d/c", <<H(1,0,1)>>), M("d/c", <<H(1,1,0)>>),
   M("d/e", <<H(1,1,2), H(2,0,1)>>),                                                       \* partial failure, possibly in a directory that is new
   [M("a", <<H(1,0,1)>>) EXCEPT !.new = "b"],                                             \* differing names, not a rename
+  [M("d/c", <<H(2,0,1)>>) EXCEPT !.new = "b"],                                           \* another old name for the same new name
   [M("a", <<>>) EXCEPT !.new = "b", !.ren = TRUE],                                       \* pure rename
   [M("a", <<H(1,0,1)>>) EXCEPT !.new = "b", !.ren = TRUE],                               \* rename + change
   [M("a", <<>>) EXCEPT !.nmode = "755"],                                                 \* mode change only
@@ -37,7 +38,9 @@ TreeOf(a, b, c, e) == [p \in Paths |-> CASE p = "a" -> a [] p = "b" -> b [] p = 
 TreesSmall == { TreeOf(F(<<0>>, "644"), Absent, F(<<0>>, "644"), Absent),
                 TreeOf(F(<<0, 0>>, "755"), F(<<>>, "600"), Absent, Absent),
                 TreeOf(F(<<1>>, "644"), F(<<0>>, "644"), F(<<0>>, "644"), F(<<1>>, "644")),
-                TreeOf(Absent, Absent, F(<<1>>, "644"), Absent) }
+                TreeOf(Absent, Absent, F(<<1>>, "644"), Absent),
+                TreeOf(Absent, F(<<0, 0>>, "644"), Absent, Absent),              \* only b: two old names that both land on it
+                TreeOf(F(<<0>>, "755"), Absent, Absent, Absent) }                \* a one-cell file with a mode of its own
 TreesAll == {TreeOf(a, b, c, e) : a \in {Absent, F(<<0>>, "644"), F(<<0, 0>>, "755"), F(<<1>>, "644")},
                                   b \in {Absent, F(<<>>, "644"), F(<<>>, "600"), F(<<0>>, "644")},
                                   c \in {Absent, F(<<0>>, "644"), F(<<1>>, "644")}, e \in {Absent, F(<<1>>, "644")}}
